@@ -179,19 +179,16 @@ state) and an error is recorded. With `msg` the JSON `text` member if there is o
 the raw payload: the error is `VersionMismatch` carrying `ver` exactly when `msg` is one of
 "Outdated client! Please use " / "Outdated server! I'm still on " followed by the non-empty
 whitespace-free `ver` (and at most one final newline), and `LoginDisconnect` carrying `msg` exactly
-when it has no such form. The one exception (see the final report): if `text` exists but is not a
-string, the Python raises `TypeError` out of `re.match` instead. -/
+when it has no such form (a `text` member that is not a string counts as absent). -/
 theorem disconnect_surfaces (P : LoginParams) (pre post : List Step) (j : String)
     (hpre : ∀ e ∈ events pre, e.isTerminal = false) :
     let s := exec P .init (pre ++ .recv (.disconnect j) :: post)
     let msg := match P.jsonText j with | .str t => t | _ => j
     s = exec P .init (pre ++ [.recv (.disconnect j)]) ∧
     s.err ≠ none ∧ s.reactor = .login ∧
-    (P.jsonText j = .nonStr → s.err = some .typeError) ∧
-    (P.jsonText j ≠ .nonStr →
-      (∀ ver, s.err = some (.versionMismatch ver) ↔ Outdated msg ver) ∧
-      (s.err = some (.loginDisconnect msg) ↔ ∀ ver, ¬ Outdated msg ver) ∧
-      (∀ m, s.err = some (.loginDisconnect m) → m = msg)) := by
+    (∀ ver, s.err = some (.versionMismatch ver) ↔ Outdated msg ver) ∧
+    (s.err = some (.loginDisconnect msg) ↔ ∀ ver, ¬ Outdated msg ver) ∧
+    (∀ m, s.err = some (.loginDisconnect m) → m = msg) := by
   intro s msg
   have hal : (exec P .init pre).alive = true := exec_alive P .init pre init_alive hpre
   have hs : s = { exec P .init pre with err := some (classifyDisconnect P j) } := by
@@ -206,10 +203,8 @@ theorem disconnect_surfaces (P : LoginParams) (pre post : List Step) (j : String
     rw [hs]
     simp only [ClientState.alive, Bool.and_eq_true] at hal
     cases hr : (exec P .init pre).reactor <;> simp_all
-  refine ⟨hs.trans hs1.symm, by rw [herr]; simp, hre, ?_, ?_⟩
-  · intro hn; rw [herr, classify_nonStr P j hn]
-  · intro hn
-    have hc := classify_str P j hn
+  refine ⟨hs.trans hs1.symm, by rw [herr]; simp, hre, ?_⟩
+  · have hc := classify_str P j
     have hmsg : disconnectMessage P j = msg := rfl
     rw [hmsg] at hc
     rw [herr, hc]
@@ -287,8 +282,8 @@ example :
 example : (runLogin demoParams 1 [.disconnect "Server is full"]).err =
     some (.loginDisconnect "Server is full") := by decide +kernel
 
-example : (runLogin demoParams 1 [.disconnect "{\"text\": 5}"]).err = some .typeError := by
-  decide +kernel
+example : (runLogin demoParams 1 [.disconnect "{\"text\": 5}"]).err =
+    some (.loginDisconnect "{\"text\": 5}") := by decide +kernel
 
 /-- The hypotheses of the theorems are satisfiable by non-trivial values. -/
 example : ∀ e ∈ events [.flush, .recv (.setCompression 256), .recv (.pluginRequest 1 "c" []), .flush],
